@@ -22,10 +22,10 @@ set_option linter.unusedTactic false
 
 variable {K : Type} [Field K] [LinearOrder K] [IsStrictOrderedRing K]
 
-def g3 (a : V3 K) : model3d.Coord3D K := ⟨a.x, a.y, a.z⟩
-def g2 (a : V2 K) : model2d.Coord K := ⟨a.x, a.y⟩
-def gm3 (m : M3 K) : model3d.Matrix3 K := ⟨m.a0, m.a1, m.a2, m.a3, m.a4, m.a5, m.a6, m.a7, m.a8⟩
-def gm2 (m : M2 K) : model2d.Matrix2 K := ⟨m.a0, m.a1, m.a2, m.a3⟩
+@[reducible] def g3 (a : V3 K) : model3d.Coord3D K := ⟨a.x, a.y, a.z⟩
+@[reducible] def g2 (a : V2 K) : model2d.Coord K := ⟨a.x, a.y⟩
+@[reducible] def gm3 (m : M3 K) : model3d.Matrix3 K := ⟨m.a0, m.a1, m.a2, m.a3, m.a4, m.a5, m.a6, m.a7, m.a8⟩
+@[reducible] def gm2 (m : M2 K) : model2d.Matrix2 K := ⟨m.a0, m.a1, m.a2, m.a3⟩
 
 theorem mn_eq (a b : K) : GenPrelude.mn a b = Tf.mn a b := by
   unfold GenPrelude.mn Tf.mn
